@@ -92,7 +92,10 @@ const NA: usize = 2; // smart accounts (addresses 0,1); address 2 is a stranger 
 const NADDR: usize = 3;
 const NR: u32 = 2; // context rule ids 0,1
 const NS: usize = 5; // signers
-const MAX_TTL: u32 = 4_000_000;
+// max_entry_ttl ~ 1 year; min_persistent_entry_ttl = max - 1, so persistent entries of the
+// unmodified code stay live through the long-idle sequences (up to ~200 days per sequence)
+const MAX_TTL: u32 = 6_312_000;
+const DAY: u32 = 17_280;
 
 struct Sim {
     e: Env,
@@ -464,6 +467,19 @@ impl Sim {
         t.obs(&format!("ok r=- S={} W={} L={} now={} ev=- dem=-", self.st_s, self.st_w, self.st_l, self.now));
     }
 
+    /// "long idle": move the ledger by `n` without any policy call in between, THEN re-read every
+    /// getter of all three contracts (an entry that was silently put into temporary storage, or
+    /// whose TTL is not kept up, shows up here as a changed getter)
+    fn idle(&mut self, t: &mut Trace, n: u32) {
+        self.now += n;
+        set_ledger(&self.e, self.now, 16, MAX_TTL);
+        t.op(&format!("pol idle n={}", n));
+        self.refresh('s');
+        self.refresh('w');
+        self.refresh('l');
+        t.obs(&format!("ok r=- S={} W={} L={} now={} ev=- dem=-", self.st_s, self.st_w, self.st_l, self.now));
+    }
+
     // ---- convenience wrappers used by the directed scenarios ---------------------------
     fn s_install(&mut self, t: &mut Trace, a: usize, r: u32, rs: &[usize], thr: u32, auth: &[usize]) -> bool {
         self.exec(t, &Op { kind: "s_install", a, r, rs: rs.to_vec(), thr, auth: auth.to_vec(), ..Default::default() })
@@ -742,6 +758,51 @@ fn directed_capacity(t: &mut Trace, start: u32, per_ledger: u32, period: u32) {
     s.spend(t, 0, 1, 1);
 }
 
+/// long idle family: install all three policies, spend under a 150-day period, then let 1 / 31 /
+/// 100 days pass (in the given order) with NO policy call in between; after every gap read all
+/// getters and probe can_enforce / enforce: thresholds and weights unchanged, the window still
+/// counts the old spends
+fn directed_idle(t: &mut Trace, start: u32, gaps: &[u32]) {
+    t.seq(&format!("directed long idle gaps_days={} period_days=150 start={}", join(gaps), start));
+    let mut s = Sim::new(start);
+    let rs = [0usize, 1, 2];
+    let period = 150 * DAY;
+    s.s_install(t, 0, 0, &rs, 2, &[0]);
+    s.s_install(t, 1, 1, &rs, 3, &[1]);
+    s.w_install(t, 0, 0, &[(0, 5), (1, 7), (3, 2)], 12, &[0]);
+    s.w_install(t, 1, 0, &[(2, u32::MAX)], u32::MAX, &[1]);
+    s.l_install(t, 0, 0, 100, period, &[0]);
+    s.l_install(t, 1, 1, 50, period, &[1]);
+    s.spend(t, 0, 0, 60);
+    s.spend(t, 0, 0, 40);
+    s.spend(t, 1, 1, 30);
+    let mut elapsed = 0u32;
+    for &g in gaps {
+        s.idle(t, g * DAY);
+        elapsed += g;
+        s.try_enforce(t, 's', 0, 0, &rs, "o:approve", &[0], &[0]);
+        s.try_enforce(t, 's', 0, 0, &rs, "o:approve", &[0, 1], &[0]);
+        s.try_enforce(t, 's', 1, 1, &rs, "o:approve", &[0, 1], &[1]);
+        s.try_enforce(t, 'w', 0, 0, &rs, "o:approve", &[0, 3], &[0]);
+        s.try_enforce(t, 'w', 0, 0, &rs, "o:approve", &[0, 1], &[0]);
+        s.try_enforce(t, 'w', 1, 0, &rs, "o:approve", &[2], &[1]);
+        // the window (150 days) is still open: the old 100 / 30 must still count
+        s.spend(t, 0, 0, 100);
+        s.spend(t, 0, 0, 1);
+        s.spend(t, 1, 1, 21);
+        s.spend(t, 1, 1, 1);
+    }
+    // past the period: the first spends leave the window
+    if elapsed < 151 {
+        s.idle(t, (151 - elapsed) * DAY);
+        s.spend(t, 0, 0, 101);
+        s.spend(t, 0, 0, 100);
+        s.spend(t, 1, 1, 30);
+        s.try_enforce(t, 's', 0, 0, &rs, "o:approve", &[0, 1], &[0]);
+        s.try_enforce(t, 'w', 0, 0, &rs, "o:approve", &[0, 1], &[0]);
+    }
+}
+
 // ------------------------------------------------------------------------------------------
 // generated sequences
 // ------------------------------------------------------------------------------------------
@@ -947,7 +1008,7 @@ fn gen_spend(rng: &mut Rng, s: &mut Sim, t: &mut Trace, key_bias: (usize, u32)) 
             1 => 1,
             2 => 2,
             3 => u32::MAX,
-            4 => 100_000,
+            4 => *rng.pick(&[100_000u32, 40 * 17_280, 150 * 17_280]),
             _ => rng.range(2, 8) as u32,
         };
         s.l_install(t, a, r, lim, per, &auth);
@@ -1029,6 +1090,9 @@ fn main() {
     directed_weighted(&mut t);
     directed_spend(&mut t);
     directed_capacity(&mut t, 1000, 20, 50);
+    directed_idle(&mut t, 1000, &[1, 31, 100]);
+    directed_idle(&mut t, 5, &[31, 100, 1]);
+    directed_idle(&mut t, 70_000, &[100, 31]);
     if thorough {
         // other shapes: everything in one ledger; one entry per ledger with a long period
         let pl = *rng.pick(&[1000u32, 500, 7, 1]);
@@ -1041,6 +1105,14 @@ fn main() {
         t.seq(&format!("rand k={} seed={} focus={} start={}", k, seed, focus, start));
         let key = (rng.below(NA as u64) as usize, rng.below(NR as u64) as u32);
         for _ in 0..len {
+            // now and then a long idle period (1 / 31 / 100 days) without any policy call
+            if rng.chance(2) {
+                let n = *rng.pick(&[1u32, 31, 31, 100]) * DAY;
+                if (s.now as u64 + n as u64) < start as u64 + 3_400_000 {
+                    s.idle(&mut t, n);
+                    continue;
+                }
+            }
             let p = match focus {
                 0 | 1 => 0,
                 2 | 3 => 1,
